@@ -258,6 +258,40 @@ def extra_obligations(mods, tier, seed):
     cells on the firmware mock against the host LCD's buffer at every marker (BOUNDED)"""
     from progs import devdiff
     out = devdiff.obligations("C17/diff", devdiff.lcd_scripts(), lcd=True, what="display cells equal the host LCD buffer after every command")
+    # host model: two LCD objects share nothing (glyph tables, buffers, backlight flags) - executed on the real class (BOUNDED)
+    import sys as _sys
+    import time as _time
+    from contracts.c08 import real
+    real("Reduino.Displays")
+    HostLCD = _sys.modules["Reduino.Displays.LCD"].LCD
+    t0 = _time.time()
+    bad = []
+    try:
+        a = HostLCD(rs=1, en=2, d4=3, d5=4, d6=5, d7=6)
+        a.glyph(0, [1, 2, 3, 4, 5, 6, 7, 8])
+        a.write(0, 0, "first")
+        b = HostLCD(i2c_addr=0x27)
+        if getattr(b, "glyphs", {}) not in ({}, None):
+            bad.append({"problem": "a fresh display already has glyphs", "glyphs": repr(getattr(b, "glyphs", None))[:120]})
+        if b.buffer[0].strip():
+            bad.append({"problem": "a fresh display already has text", "row": b.buffer[0]})
+        b.glyph(0, [31, 30, 29, 28, 27, 26, 25, 24])
+        b.glyph(3, [0, 0, 0, 0, 0, 0, 0, 1])
+        b.line(1, "second")
+        if list(a.glyphs.get(0, [])) != [1, 2, 3, 4, 5, 6, 7, 8] or 3 in a.glyphs:
+            bad.append({"problem": "uploading a glyph to one display changed another display's glyph table", "first_display_glyphs": repr(a.glyphs)[:160]})
+        if list(b.glyphs.get(0, [])) != [31, 30, 29, 28, 27, 26, 25, 24]:
+            bad.append({"problem": "the display does not store the eight rows it was given", "glyphs": repr(b.glyphs)[:160]})
+        if a.buffer[1].strip() or not a.buffer[0].startswith("first"):
+            bad.append({"problem": "writing to one display changed another display's buffer", "rows": a.buffer})
+        c = HostLCD(rs=1, en=2, d4=3, d5=4, d6=5, d7=6, cols=20, rows=4)
+        if len(c.buffer) != 4 or any(len(r) != 20 for r in c.buffer) or getattr(c, "glyphs", {}) not in ({}, None):
+            bad.append({"problem": "a third display is not fresh", "rows": c.buffer, "glyphs": repr(getattr(c, "glyphs", None))[:80]})
+    except Exception as ex:
+        bad.append({"problem": f"{type(ex).__name__}: {ex}"})
+    out.append({"name": "C17/host/display-objects-are-independent", "status": "discharged" if not bad else "sat", "backend": "bounded-native", "bounded": True,
+                "where": "three host LCD objects: glyph tables, buffers and geometry of one are not affected by operations on another", "time": round(_time.time() - t0, 3),
+                "replay": {"bad": bad[:3]}, "replay_confirmed": bool(bad)})
     from progs.concat import concat_obligations
     out += concat_obligations("C17", {"LCD": ("d = LCD(rs=22, en=23, d4=24, d5=25, d6=26, d7=27)",
                                               ["d.write(0, 0, 'hi')", "d.line(1, 'x', align='right')", "d.message('a', 'b')", "d.clear()", "d.progress(0, 50)", "d.backlight(True)"])})
